@@ -109,3 +109,27 @@ pub(crate) fn event_token<T: std::fmt::Debug>(token: &T) {
         }
     });
 }
+
+// ---- the syntax tree the parser returned (kept only between `record_tree(true)` and `take_tree()`) ----
+thread_local! {
+    static TREE_ON: Cell<bool> = const { Cell::new(false) };
+    static TREE: std::cell::RefCell<Option<String>> = const { std::cell::RefCell::new(None) };
+}
+
+/// Start (forgetting any tree kept so far) or stop keeping the `Debug` form of the tree `Parser::parse` returns on this thread.
+pub fn record_tree(on: bool) {
+    TREE_ON.with(|t| t.set(on));
+    TREE.with(|t| *t.borrow_mut() = None);
+}
+
+/// The tree of the last successful `Parser::parse` on this thread since `record_tree(true)`, if any.
+pub fn take_tree() -> Option<String> {
+    TREE.with(|t| t.borrow_mut().take())
+}
+
+#[inline]
+pub(crate) fn event_tree<T: std::fmt::Debug>(tree: &T) {
+    if TREE_ON.with(|t| t.get()) {
+        TREE.with(|t| *t.borrow_mut() = Some(format!("{:?}", tree)));
+    }
+}
